@@ -356,3 +356,8 @@ pub broadcast group alg_sizes { nh_sha256, nh_sha384, nh_sha512, sz_aes128, sz_a
 }
 
 
+
+verus!{
+pub assume_specification<T: Default, E> [Result::<T, E>::unwrap_or_default] (r: Result<T, E>) -> (o: T)
+    ensures r matches Ok(v) ==> o == v;
+}
